@@ -237,14 +237,14 @@ func normPlain(v any) any {
 }
 
 // jsonSafeForYAML reports whether a JSON text can be expected to mean the same as YAML:
-// only printable ASCII inside strings besides escapes known to both, no duplicate keys,
+// only characters of YAML's printable set (and none above U+FFFC) besides escapes known to both, no duplicate keys,
 // no exponents/fractions that YAML 1.1 resolvers read differently, moderate size.
 func jsonSafeForYAML(doc string) bool {
 	if len(doc) > 2000 || !utf8.ValidString(doc) {
 		return false
 	}
 	for _, r := range doc {
-		if r < 0x20 || r == 0x7f || (r >= 0x80 && r < 0xa0) || r == 0x2028 || r == 0x2029 || r == 0xfeff || r > 0xffff || r == 0xfffd {
+		if r < 0x20 || r == 0x7f || (r >= 0x80 && r < 0xa0) || r == 0x2028 || r == 0x2029 || r == 0xfeff || r >= 0xfffd {
 			return false
 		}
 	}
